@@ -1,6 +1,8 @@
 //! C20: the `ConvertUnitEntry` buffer of the read-to-write converter, reused for every entry of
 //! a unit (as the documented conversion loop does), behaves like a fresh buffer per entry.
+use super::dw::*;
 use super::entry::{tree_abbrevs, tree_unit, Variant};
+use mcx::enc::Enc;
 use gimli::write;
 use gimli::{EndianSlice, LittleEndian};
 use mcx::space::trees;
@@ -56,7 +58,7 @@ pub fn subs(_tier: Tier) -> Vec<Sub> {
         }
     }
     let n = cfgs.len() as u64;
-    vec![Sub::new(
+    vec![units_sub(), Sub::new(
         "convert-entry-buffer",
         n,
         "every ordered tree with <= 5 nodes x {plain, DW_AT_sibling on inner nodes only, leaves declared with children, invalid abbreviation code at node k, two more entries (a leaf; an entry with a child) after the null that ends the root's children}: all entries of the unit read with ConvertUnit::read_entry into ONE ConvertUnitEntry (the documented conversion loop) vs into a new null entry each time; offset, tag, children flag, sibling flag, parent, reservation and attributes of every entry must agree",
@@ -103,6 +105,171 @@ pub fn subs(_tier: Tier) -> Vec<Sub> {
     )]
 }
 
+// ---------------------------------------------------------------------------
+// Units converted after each other by one converter
+
+const UNIT_NAMES: [&str; 6] = ["compile unit {a {b}, c}", "compile unit without children", "skeleton unit", "partial unit {p}", "compile unit {x, y, z}", "split-compile unit {s}"];
+
+fn units_abbrevs() -> Vec<u8> {
+    AbbrevTable::new()
+        .decl(1, DW_TAG_COMPILE_UNIT, true, &[(DW_AT_NAME, DW_FORM_STRING)])
+        .decl(2, DW_TAG_VARIABLE, false, &[(DW_AT_NAME, DW_FORM_STRING)])
+        .decl(3, DW_TAG_NAMESPACE, true, &[(DW_AT_NAME, DW_FORM_STRING)])
+        .decl(4, 0x4a, false, &[(DW_AT_NAME, DW_FORM_STRING)])
+        .decl(5, DW_TAG_PARTIAL_UNIT, true, &[(DW_AT_NAME, DW_FORM_STRING)])
+        .decl(6, DW_TAG_COMPILE_UNIT, false, &[(DW_AT_NAME, DW_FORM_STRING)])
+        .end()
+}
+
+/// One version 5 unit of the pool (unit types compile 1, partial 3, skeleton 4, split compile 5).
+fn pool_unit(k: usize) -> Vec<u8> {
+    let mut d = Enc::new(false);
+    let die = |d: &mut Enc, code: u64, name: &str| {
+        d.uleb(code);
+        d.cstr(name.as_bytes());
+    };
+    let ut: u8 = match k {
+        0 => {
+            die(&mut d, 1, "u0");
+            die(&mut d, 3, "a");
+            die(&mut d, 2, "b");
+            d.uleb(0);
+            die(&mut d, 2, "c");
+            d.uleb(0);
+            1
+        }
+        1 => {
+            die(&mut d, 6, "u1");
+            1
+        }
+        2 => {
+            die(&mut d, 4, "u2");
+            4
+        }
+        3 => {
+            die(&mut d, 5, "u3");
+            die(&mut d, 2, "p");
+            d.uleb(0);
+            3
+        }
+        4 => {
+            die(&mut d, 1, "u4");
+            die(&mut d, 2, "x");
+            die(&mut d, 2, "y");
+            die(&mut d, 2, "z");
+            d.uleb(0);
+            1
+        }
+        _ => {
+            die(&mut d, 1, "u5");
+            die(&mut d, 2, "s");
+            d.uleb(0);
+            5
+        }
+    };
+    let mut b = Enc::new(false);
+    b.u16(5).u8(ut).u8(8).offset(0, false);
+    if ut == 4 || ut == 5 {
+        b.u64(0x1122_3344_5566_7700 + k as u64);
+    }
+    b.bytes(&d.buf);
+    let mut out = Enc::new(false);
+    out.with_length(false, &b);
+    out.buf
+}
+
+/// Convert the whole `.debug_info` with `write::Dwarf::from`, write it, read it back and render
+/// every unit: one string per unit.
+fn convert_units(info: &[u8], abbrev: &[u8]) -> Result<Vec<String>, String> {
+    let mut rd: gimli::Dwarf<R<'_>> = gimli::Dwarf::default();
+    rd.debug_info = gimli::DebugInfo::new(info, LittleEndian);
+    rd.debug_abbrev = gimli::DebugAbbrev::new(abbrev, LittleEndian);
+    let mut wd = write::Dwarf::from(&rd, &|a| Some(write::Address::Constant(a))).map_err(|e| format!("Dwarf::from: {:?}", e))?;
+    let mut sections = write::Sections::new(write::EndianVec::new(LittleEndian));
+    wd.write(&mut sections).map_err(|e| format!("Dwarf::write: {:?}", e))?;
+    let mut out: gimli::Dwarf<R<'_>> = gimli::Dwarf::default();
+    out.debug_info = gimli::DebugInfo::new(sections.debug_info.slice(), LittleEndian);
+    out.debug_abbrev = gimli::DebugAbbrev::new(sections.debug_abbrev.slice(), LittleEndian);
+    out.debug_str = gimli::DebugStr::new(sections.debug_str.slice(), LittleEndian);
+    let mut units = out.units();
+    let mut v = vec![];
+    while let Some(h) = units.next().map_err(|e| format!("read back units: {:?}", e))? {
+        let u = out.unit(h).map_err(|e| format!("read back unit: {:?}", e))?;
+        let mut s = format!("type={:?} version={}", u.header.type_(), u.header.version());
+        let mut c = u.entries();
+        while c.next_dfs().map_err(|e| format!("read back entries: {:?}", e))?.is_some() {
+            let depth = c.depth();
+            let e = c.current().ok_or("cursor without current entry")?;
+            s.push_str(&format!(" | depth{} tag={:#x}", depth, e.tag().0));
+            for a in e.attrs() {
+                let val = match out.attr_string(&u, a.value()) {
+                    Ok(x) => format!("{:?}", String::from_utf8_lossy(x.slice())),
+                    Err(_) => format!("{:?}", a.value()),
+                };
+                s.push_str(&format!(" {:#x}={}", a.name().0, val));
+            }
+        }
+        v.push(s);
+    }
+    Ok(v)
+}
+
+fn units_sub() -> Sub {
+    let n = UNIT_NAMES.len() as u64;
+    let total = n + n * n + n * n * n;
+    Sub::new(
+        "convert-units-after-each-other",
+        total,
+        "every sequence of 1..=3 version 5 units over a pool of 6 (compile units with nested, with flat and without children, a skeleton unit, a partial unit, a split-compile unit) in one .debug_info, converted by ONE write::Dwarf::from (one converter, its per-unit scratch state reused), written and read back: the k-th unit equals what converting that unit alone gives",
+        move |ctx: &mut Ctx, i| {
+            let mut ks = vec![];
+            let mut r = i;
+            let mut len = 1u32;
+            while r >= n.pow(len) {
+                r -= n.pow(len);
+                len += 1;
+            }
+            for _ in 0..len {
+                ks.push((r % n) as usize);
+                r /= n;
+            }
+            let abbrev = units_abbrevs();
+            let mut info = vec![];
+            for &k in &ks {
+                info.extend(pool_unit(k));
+            }
+            let case = || format!("units [{}] .debug_info={} .debug_abbrev={}", ks.iter().map(|&k| UNIT_NAMES[k]).collect::<Vec<_>>().join(" ; "), mcx::hex(&info), mcx::hex(&abbrev));
+            ctx.eval(1 + ks.len() as u64);
+            let whole = match guard(|| convert_units(&info, &abbrev)) {
+                Ok(x) => x,
+                Err(p) => return ctx.fail_panic("write::Dwarf::from", &p, case()),
+            };
+            let mut alone = vec![];
+            for &k in &ks {
+                match guard(|| convert_units(&pool_unit(k), &abbrev)) {
+                    Ok(Ok(v)) if v.len() == 1 => alone.push(v[0].clone()),
+                    Ok(other) => {
+                        ctx.outcome("convert-units:unit-alone-not-convertible");
+                        let _ = other;
+                        return;
+                    }
+                    Err(p) => return ctx.fail_panic("write::Dwarf::from", &p, case()),
+                }
+            }
+            match whole {
+                Ok(w) if w == alone => {
+                    ctx.nontriv(1);
+                    ctx.outcome("convert-units:equal");
+                    if ks.len() >= 2 && ks.windows(2).any(|w| matches!(w[0], 0 | 4) && matches!(w[1], 1 | 2)) {
+                        ctx.outcome("convert-units:childless-unit-after-unit-with-children");
+                    }
+                }
+                other => ctx.fail("write::Dwarf::from", "unit-after-others-equals-alone", "unit-differs", format!("{}\n  converted together: {:?}\n  each alone        : {:?}", case(), other, alone)),
+            }
+        },
+    )
+}
+
 pub fn required() -> Vec<String> {
-    ["convert-entry:equal", "convert-entry:sibling-then-no-sibling"].iter().map(|s| s.to_string()).collect()
+    ["convert-entry:equal", "convert-entry:sibling-then-no-sibling", "convert-units:equal", "convert-units:childless-unit-after-unit-with-children"].iter().map(|s| s.to_string()).collect()
 }
